@@ -464,6 +464,8 @@ def run(ctx):
         ctx.construct(es, extra='forwards redelivered'),
         'the redelivered flag of the RPC context is not forwarded to the '
         'executor', ctx.loc(es))
+    # ... and the flag survives the (de)serialisation of the RPC context
+    _shc.context_round_trip(ctx, r4, names=('redelivered',))
     ra = prog.func(EXE + '.run_action')
     fw = [n for n in own_nodes(ra.node) if isinstance(n, ast.Call) and
           U.call_name(n) == '_do_run_action']
